@@ -3,7 +3,7 @@
 
 #![allow(clippy::all)]
 
-include!("../../common/glue.rs");
+include!(concat!(env!("OUT_DIR"), "/glue.rs"));
 
 mod hooks;
 pub use hooks::{verif_hooks, verif_shim};
